@@ -77,6 +77,29 @@ func buildExact(rng *rand.Rand, L int) gen.History {
 
 var boundaryLengths = []int{1, 2, 3, 499, 500, 501, 502, 999, 1000, 1001, 1499, 1500, 1501, 1600}
 
+// twinRows rewrites a history so that now and then a header carries exactly the version, merkle root, time, bits and
+// nonce of its parent (only the parent hash differs): two rows of the export are then identical in every exported column.
+func twinRows(rng *rand.Rand, hist gen.History) (gen.History, int) {
+	renamed := map[refmodel.Hash]refmodel.Hash{}
+	byHash := map[refmodel.Hash]refmodel.Hdr{}
+	out := gen.History{}
+	twins := 0
+	for _, h := range hist.Hdrs {
+		old := h.HashOf()
+		if nh, ok := renamed[h.Prev]; ok {
+			h.Prev = nh
+		}
+		if p, ok := byHash[h.Prev]; ok && rng.Intn(12) == 0 {
+			h.Version, h.Merkle, h.Time, h.Bits, h.Nonce = p.Version, p.Merkle, p.Time, p.Bits, p.Nonce
+			twins++
+		}
+		renamed[old] = h.HashOf()
+		byHash[h.HashOf()] = h
+		out.Hdrs = append(out.Hdrs, h)
+	}
+	return out, twins
+}
+
 // leftoverDump returns the intermediate dump a failed export leaves behind: a store of 1800 longest-chain headers is
 // exported (once per process) to a target inside a directory that does not exist; ExportHeaders fails after writing
 // $TMPDIR/headers.csv. nil if that export did not fail or left nothing.
@@ -160,6 +183,11 @@ func (e *env) roundTrip(caseID string, idx int) {
 			Classes:      []string{"M", "MH", "MHL", "MMMMHLZ", "MHLZNTUX", "MMMMHLR"}[rng.Intn(6)],
 			FieldExtreme: true,
 		})
+	}
+	if idx%4 == 2 {
+		var twins int
+		hist, twins = twinRows(rng, hist)
+		r.Count("headers_equal_to_their_parent_in_every_exported_column", int64(twins))
 	}
 	if idx%3 == 1 {
 		// an earlier export of a longer chain failed after writing its intermediate dump (unwritable target): the dump is
